@@ -10,7 +10,9 @@ package main
 import (
 	"fmt"
 	"path/filepath"
+	"regexp"
 	"sort"
+	"strconv"
 	"strings"
 	"testing"
 
@@ -37,7 +39,9 @@ func c34ShowInventory(w *lsWorld, inv []lsShard) string {
 }
 
 // c34CheckSync is the oracle for one `sync -f`.
-func c34CheckSync(w *lsWorld, where string, exp []lsExpect, reject string, cmdErr error, before, after lsSnap) error {
+var c34ShardFileRe = regexp.MustCompile(`^(.*_v[0-9]+)\.([0-9]{5})\.zoekt$`)
+
+func c34CheckSync(w *lsWorld, where string, exp []lsExpect, reject string, multiShard bool, cmdErr error, before, after lsSnap, st *lsStats) error {
 	if reject != "" {
 		// two repositories with one name (or one repository reachable from two
 		// root arguments): the command must fail and the index stays as it was.
@@ -80,9 +84,39 @@ func c34CheckSync(w *lsWorld, where string, exp []lsExpect, reject string, cmdEr
 		switch n := seen[e.Name]; {
 		case n == 0:
 			problems = append(problems, fmt.Sprintf("repository %q (%s) is not in the index", e.Name, w.norm(e.Source)))
-		case n > 1:
-			// generated repositories are a few bytes: one shard each
+		case n > 1 && !(e.Big && multiShard):
+			// a few bytes of content, or a 1 MiB shard limit: one shard
 			problems = append(problems, fmt.Sprintf("repository %q is in %d shards", e.Name, n))
+		}
+		// all shards of the repository are present: one file-name prefix,
+		// numbered 00000 .. n-1 without gaps
+		var nums []int
+		prefixes := map[string]bool{}
+		for _, s := range inv {
+			if s.Name != e.Name {
+				continue
+			}
+			m := c34ShardFileRe.FindStringSubmatch(s.Rel)
+			if m == nil {
+				problems = append(problems, fmt.Sprintf("shard file name %s of %q is not <prefix>_v<N>.<NNNNN>.zoekt", s.Rel, e.Name))
+				continue
+			}
+			k, _ := strconv.Atoi(m[2])
+			nums = append(nums, k)
+			prefixes[m[1]] = true
+		}
+		sort.Ints(nums)
+		for i, k := range nums {
+			if k != i {
+				problems = append(problems, fmt.Sprintf("shards of %q are numbered %v, want 0..%d without gaps", e.Name, nums, len(nums)-1))
+				break
+			}
+		}
+		if len(prefixes) > 1 {
+			problems = append(problems, fmt.Sprintf("shards of %q use %d different file-name prefixes", e.Name, len(prefixes)))
+		}
+		if len(nums) > 1 {
+			st.label("sync:multi-shard-repository")
 		}
 	}
 	if len(problems) > 0 {
@@ -137,6 +171,9 @@ func c34CheckRemove(w *lsWorld, where string, selectors []string, invBefore []ls
 			continue
 		}
 		for _, rels := range matches {
+			if len(rels) > 1 {
+				st.label("remove:multi-shard-repository")
+			}
 			for _, rel := range rels {
 				selected[rel] = true
 				selected[rel+".meta"] = true
@@ -227,7 +264,7 @@ func runC34(rec *kit.Recorder, c lsCase) (err error) {
 			if err != nil {
 				return err
 			}
-			if err := c34CheckSync(w, where, exp, reject, fErr, before, after); err != nil {
+			if err := c34CheckSync(w, where, exp, reject, c.ShardLimit >= 500 && c.ShardLimit < 4000, fErr, before, after, st); err != nil {
 				return err
 			}
 			if reject != "" {
@@ -299,12 +336,12 @@ func TestVerif_C34(t *testing.T) {
 	lsSetup(t)
 	rec := kit.Open(t, "C34",
 		"rapid-generated histories of 2-6 steps over 4 root directories (two with the same base name, one ending in .git): each step mutates the roots (add non-bare / bare / gitfile / root-level / nested repositories and *.git look-alikes, delete, move between roots, rename, new commit, config change, foreign shard written into the index) and then runs `sync -f <roots>` (root sets vary, sub-directories of roots and overlapping roots included) or `remove -f <selectors>`; a case = one history; non-trivial = the history performed >= 1 removal and >= 1 re-index of an already indexed name, or synced after a repository move; distinct by hash of the JSON case",
-		"build options are constant across a history (-disable_ctags -submodules=false)",
+		"build options are constant across a history (-disable_ctags -submodules=false -shard_limit N)",
 		"discovery model (independent, over the layout description): a directory with .git (directory or gitfile) is a repository named by its slash path relative to the root argument (the root's base name for the root itself); a directory named *.git with an objects directory is a bare repository named likewise minus the .git suffix; directories inside a repository are not searched; a *.git directory without objects is not a repository",
 		"a root set in which one repository is reachable from two root arguments is expected to be rejected like a duplicate name (the tool documents this error); duplicate root arguments likewise",
 		"'index unchanged' after a rejected sync is judged without the lock file and the index directory's own mtime/existence (the lock is taken before discovery)",
 		"every generated repository is a valid git repository with a HEAD commit, so a failing sync -f / remove -f whose selectors each name exactly one indexed repository is reported (unexpected-*-failure)",
-		"one shard per repository (contents are a few bytes); up to date = the shard's only branch is HEAD at the repository's HEAD commit and its source is the repository's path",
+		"a third of the histories use a small -shard_limit (1500-3000) and repositories of ~4.5 KB that then span several shards; a repository must be present as one file-name prefix with shards numbered 0..n-1 without gaps, every shard naming the same repository, source and HEAD; small repositories (or the 1 MiB limit) must be exactly one shard; up to date = every shard's only branch is HEAD at the repository's HEAD commit and its source is the repository's path",
 		"remove: a selector matches a repository by exact name, else by exact source path; on success exactly the shards (and sidecars) of the matched repositories are gone; on failure nothing but shards of matched repositories may be gone; nothing is ever created or rewritten",
 	)
 	kit.Property(t, rec, lsGen, func(c lsCase) error { return runC34(rec, c) })
